@@ -39,7 +39,7 @@ def tour(items, cap, rng):
     return items, exhaustive
 
 
-def walks(run, machine, gen_cfg, n, length, seed):
+def walks(run, machine, gen_cfg, n, length, seed, overrides=None):
     """random behaviours of the machine produced by TLC's simulator (they respect the machine's guards)"""
     import os, re
     if n <= 0:
@@ -48,6 +48,8 @@ def walks(run, machine, gen_cfg, n, length, seed):
     lines = [l for l in src.splitlines() if not re.match(r"\s*(CONSTRAINT|VIEW|INVARIANT|PROPERTY)\b", l)]
     lines = [re.sub(r"MaxHist\s*=\s*\d+", "MaxHist = %d" % length, l) for l in lines]
     lines = [re.sub(r"Emit\s*=\s*TRUE", "Emit = FALSE", l) for l in lines]
+    for k, v in (overrides or {}).items():      # constants that only the simulated walks widen (e.g. one more rule than the tour)
+        lines = [re.sub(r"\b%s\s*=\s*\S+" % k, "%s = %s" % (k, v), l) for l in lines]
     lines.append("INVARIANT EmitWalk")
     cfg = os.path.join(run.work, "sim_%s.cfg" % machine)
     os.makedirs(run.work, exist_ok=True)
@@ -66,7 +68,7 @@ def walks(run, machine, gen_cfg, n, length, seed):
 
 
 def check(pid, tier, seed, machine, mc_cfg, gen_cfg, trace_module, adapter, sig, corrupt, tour_cap, n_walks, walk_len,
-          extra_items=None, variants=None, post_actions=None, fresh_process=False, rule="", assumptions=(), run=None, finish=True, nontrivial=None, adapter_fn="run_trace"):
+          extra_items=None, variants=None, post_actions=None, fresh_process=False, rule="", assumptions=(), run=None, finish=True, nontrivial=None, adapter_fn="run_trace", walk_overrides=None):
     import time
     run = run or Run(pid, tier, seed)
     T = [time.time()]
@@ -82,7 +84,7 @@ def check(pid, tier, seed, machine, mc_cfg, gen_cfg, trace_module, adapter, sig,
     lap('generate')
     # 3 behaviours
     t_items, exh = tour(all_items, tour_cap, rng)
-    w_items = walks(run, machine, gen_cfg, n_walks, walk_len, seed)
+    w_items = walks(run, machine, gen_cfg, n_walks, walk_len, seed, walk_overrides)
     actions = t_items + w_items + list(extra_items or [])
     if post_actions:
         actions = [post_actions(a) for a in actions]
